@@ -229,6 +229,16 @@ def d_fit_lin(ctx, fits):
         if picked:
             g = ' && '.join(('' if pol else 'NOT ') + unparse(t) for t, pol in guards_of(fits, s, stop=f))
             table[picked] = g
+    # every call: the dispatch depends on the TYPE of the abscissae only (an Obs without error analysis has dvalue 0 as well)
+    for s in statements(f):
+        if fits.enclosing_func(s) is not f or not isinstance(s, (ast.Assign, ast.Return)) or s.value is None:
+            continue
+        for c in ast.walk(s.value):
+            if isinstance(c, ast.Call) and call_name(c) in ('total_least_squares', 'least_squares'):
+                gs = [unparse(t) for t, pol in guards_of(fits, s, stop=f)]
+                valued = [g_ for g_ in gs if '.dvalue' in g_ or '.value' in g_ or 'is_zero' in g_]
+                ctx.check(rule, 'fits.py:fit_lin#dispatch-by-type[%s]' % call_name(c), not valued, 'chosen by the type of x only',
+                          '%s is chosen under the value dependent condition %s: observables whose error analysis has not been run (dvalue = 0) are fitted without their x fluctuations' % (call_name(c), valued), fits.loc(s))
     ok1 = 'total_least_squares' in table and table['total_least_squares'] == 'all((isinstance(n, Obs) for n in x))'
     ctx.check(rule, 'fits.py:fit_lin#obs-x', ok1, 'all-Obs abscissae -> total least squares', 'dispatch: %s' % table)
     g2 = table.get('least_squares', '')
